@@ -310,7 +310,9 @@ def run_kernels(driver, seed, cases, kernels=None, lane_counts=(1, 2, 3, 4, 5, 6
     lines = ["env 0 0 0 1"]
     plan = []
     for L in lane_counts:
-        base = [0, 1, L - 1, L, L + 1, 2 * L + 1, 8 * L - 1, 8 * L, 8 * L + 1, 9 * L + 2, 16 * L + 3]
+        base = [0, 1, L - 1, L, L + 1, 2 * L + 1, 8 * L - 1, 8 * L, 8 * L + 1, 9 * L + 2, 16 * L + 3,
+                # many dense blocks: loops that take several blocks per step
+                15 * 8 * L + 1, 16 * 8 * L, 17 * 8 * L, 17 * 8 * L + L + 1, 33 * 8 * L + 2]
         for ty in ("i64", "u8", "i16", "u32"):
             w, signed = INT_TYPES[ty]
             m = (1 << w) - 1
